@@ -27,7 +27,8 @@ func evalOutcome(r *rec, ci caseInfo, accepted bool, row *Row, errText string, n
 	v := judge(m, ci.env, format, ci.flatSize)
 	deviation := func(class, msg string, extra map[string]interface{}) {
 		switch {
-		case ci.taglessMultiField() && (errText == "" || errText == "<nil>"): // the request as a whole did not fail
+		case ci.taglessMultiField() && (errText == "" || errText == "<nil>") &&
+			(strings.HasSuffix(class, "-rejected-valid") || strings.HasSuffix(class, "-stored-name-differ")): // the line is lost or its name mangled
 			class = "C16/influx-tagless-multi-field-line-misparsed"
 			msg = "a line without tags and with several fields is cut at the first comma of the field set (the measurement becomes \"name first-field\"): " + msg
 		case ci.flatDesyncing && format == fmtFlat && strings.HasSuffix(class, "-rejected-valid"):
